@@ -429,7 +429,7 @@ func runC19(seed int64, tier string, out string) {
 	workers := 16
 	nLoader := 2000
 	if tier == "thorough" {
-		nLoader = 40000
+		nLoader = 60000
 	}
 	var probes []*Probe
 	corpus := loadCorpus(root)
@@ -509,7 +509,7 @@ func runC19(seed int64, tier string, out string) {
 	// --- fixed-length loader: model vs implementation
 	nFixed := 500
 	if tier == "thorough" {
-		nFixed = 8000
+		nFixed = 12000
 	}
 	fw := &shardWriter{dir: out, prop: "C19", max: 1200, meta: meta, k: 1,
 		header: "Require Import Csvq.Model.Base Csvq.Model.Value Csvq.Model.Conv Csvq.Model.Fixed Csvq.Harness.H19Fixed.\nOpen Scope list_scope.\n",
